@@ -82,6 +82,20 @@ def obligations(tier, seed=0):
             add('iv_muldiv', fn='mpi_pow_int', n=n, prec=3, s=s)
         add('iv_muldiv', fn='mpi_pow_int', n=3, prec=2, s=s, entry='op')
         add('iv_muldiv', fn='mpi_pow_int', n=4, prec=2, s=s, entry='op')
+    # seeded random shapes (deterministic for a given VERIF_SEED)
+    import random
+    rng = random.Random(5000 + int(seed or 0))
+    for _ in range(10 if not thorough else 40):
+        b1, o1 = rng.randint(1, 7), rng.randint(-3, 3)
+        S_ = sign_patterns(b1, b1 + rng.randint(0, 3), o1, o1 + rng.randint(0, 3))
+        b2, o2 = rng.randint(1, 6), rng.randint(-3, 3)
+        T_ = sign_patterns(b2, b2 + rng.randint(0, 3), o2, o2 + rng.randint(0, 3))
+        s_, t_ = rng.choice(S_[:5]), rng.choice(T_[:5])
+        pr = rng.choice([1, 2, 3, 5])
+        add('iv_addsub', fn=rng.choice(['mpi_add', 'mpi_sub']), prec=pr, s=s_, t=t_)
+        if max(b1, b2) <= 5:
+            add('iv_muldiv', fn=rng.choice(['mpi_mul', 'mpi_div']), prec=min(pr, 3), s=s_, t=t_)
+            add('iv_muldiv', fn='mpi_pow_int', n=rng.choice([2, 3, 4]), prec=min(pr, 3), s=s_)
     # products far longer than the precision (more than prec+10 bits), every sign pattern of the right operand, left operand
     # straddling zero / one-signed
     for s in ([N(7, 0), P(7, 0)], [P(6, 0), P(7, 1)], [N(7, 1), N(6, 0)]):
